@@ -14,7 +14,9 @@ use reactive_mutiny::verif as rv;
 use std::sync::{atomic::{AtomicI32, Ordering::SeqCst}, Arc, Mutex};
 
 #[derive(Clone, Copy, Debug, PartialEq, Eq)]
-pub enum Step { Clone(u8), Drop(u8), Deref(u8), Bulk(u8, u8), SendTo(u8, u8), Refs(u8), TakeMail,
+pub enum Step { Clone(u8), Drop(u8),
+    /// the handle goes out of scope while its thread is unwinding from a panic (caught right there): "whichever thread drops it", in whatever state
+    DropUnwinding(u8), Deref(u8), Bulk(u8, u8), SendTo(u8, u8), Refs(u8), TakeMail,
     /// through a handle that several threads use at once by shared reference (it lives to the end of the run)
     CloneShared(u8), DerefShared(u8), BulkShared(u8, u8) }
 
@@ -50,7 +52,7 @@ pub fn draw_cfg(rng: &mut Rng, only: Option<&str>) -> Cfg {
         for _ in 0..len {
             let k = rng.below(4) as u8;
             if shared && rng.chance(2, 5) { s.push(match rng.below(10) { 0..=5 => Step::CloneShared(k), 6..=7 => Step::DerefShared(k), _ => Step::BulkShared(k, 1 + rng.below(2) as u8) }); continue }
-            s.push(match rng.below(100) { 0..=24 => Step::Clone(k), 25..=54 => Step::Drop(k), 55..=64 => Step::Deref(k), 65..=74 => Step::Bulk(k, 1 + rng.below(3) as u8), 75..=86 => Step::SendTo(k, rng.below(nthreads as u64) as u8), 87..=92 => Step::Refs(k), _ => Step::TakeMail });
+            s.push(match rng.below(100) { 0..=24 => Step::Clone(k), 25..=49 => Step::Drop(k), 50..=54 => Step::DropUnwinding(k), 55..=64 => Step::Deref(k), 65..=74 => Step::Bulk(k, 1 + rng.below(3) as u8), 75..=86 => Step::SendTo(k, rng.below(nthreads as u64) as u8), 87..=92 => Step::Refs(k), _ => Step::TakeMail });
         }
         scripts.push(s);
     }
@@ -134,6 +136,8 @@ fn run_generic<A: BoundedOgreAllocator<DTok> + Send + Sync + 'static>(cfg: &Cfg,
                 match s {
                     Step::Clone(k) => if !mine.is_empty() { let i = k as usize % mine.len(); let c = mine[i].a().clone(); let v = mine[i].v; mine.push(H::new(c, v, &sh)) },
                     Step::Drop(k) => if !mine.is_empty() { let i = k as usize % mine.len(); let h = mine.remove(i); drop(h) },
+                    // (`resume_unwind` starts an unwinding -- `std::thread::panicking()` is true while `h` is dropped -- without going through the panic hook)
+                    Step::DropUnwinding(k) => if !mine.is_empty() { let i = k as usize % mine.len(); let h = mine.remove(i); let _ = std::panic::catch_unwind(std::panic::AssertUnwindSafe(move || { let _h = h; std::panic::resume_unwind(Box::new(())) })); },
                     Step::Deref(k) => if !mine.is_empty() { mine[k as usize % mine.len()].check_deref() },
                     Step::Bulk(k, c) => if !mine.is_empty() {
                         let i = k as usize % mine.len(); let v = mine[i].v;
@@ -225,7 +229,7 @@ fn single(args: &Args, acc: &mut Acc, seed: u64, verbose: bool) {
     acc.count(&format!("runs[{}]", cfg.ring), 1);
     if inconclusive { return }
     let mut ch = cfg.creations.len() as u64;
-    for s in &cfg.scripts { for st in s { ch = mix(ch, match st { Step::Clone(k) => *k as u64, Step::Drop(k) => 10 + *k as u64, Step::Deref(k) => 20 + *k as u64, Step::Bulk(k, c) => 30 + *k as u64 * 4 + *c as u64, Step::SendTo(k, t) => 60 + *k as u64 * 4 + *t as u64, Step::Refs(k) => 90 + *k as u64, Step::CloneShared(k) => 100 + *k as u64, Step::DerefShared(k) => 110 + *k as u64, Step::BulkShared(k, c) => 120 + *k as u64 * 4 + *c as u64, Step::TakeMail => 99 }) } }
+    for s in &cfg.scripts { for st in s { ch = mix(ch, match st { Step::Clone(k) => *k as u64, Step::Drop(k) => 10 + *k as u64, Step::DropUnwinding(k) => 14 + *k as u64, Step::Deref(k) => 20 + *k as u64, Step::Bulk(k, c) => 30 + *k as u64 * 4 + *c as u64, Step::SendTo(k, t) => 60 + *k as u64 * 4 + *t as u64, Step::Refs(k) => 90 + *k as u64, Step::CloneShared(k) => 100 + *k as u64, Step::DerefShared(k) => 110 + *k as u64, Step::BulkShared(k, c) => 120 + *k as u64 * 4 + *c as u64, Step::TakeMail => 99 }) } }
     acc.nontrivial(mix(if args.lane == Lane::Ser { hash } else { 0 }, ch));
     acc.sample(3, || J::obj().with("config", cfg.json()).with("strategy", J::s(rc.strategy.describe())));
     if let Some(v) = violation { file_violation(args, acc, seed, verbose, v) }
